@@ -371,8 +371,8 @@ func copyCounters(m map[string]int) map[string]int {
 }
 
 func actionKind(a string) string {
-	if strings.Contains(a, "@") {
-		return strings.SplitN(a, ":", 2)[0] + "@preempt"
+	if strings.HasPrefix(a, "work:") && strings.Contains(a, "@") {
+		return "work@preempt"
 	}
 	if i := strings.IndexByte(a, '!'); i >= 0 {
 		rest := a[i+1:]
